@@ -79,6 +79,10 @@ M = [
  ("c09_feed_returns_len", "C09", "returns-consumed", "crates/jxl-oxide/src/lib.rs",
   "                    self.inner.aux_boxes.handle_event(aux_box_event)?;\n                }\n            }\n        }\n        Ok(self.reader.previous_consumed_bytes())",
   "                    self.inner.aux_boxes.handle_event(aux_box_event)?;\n                }\n            }\n        }\n        Ok(buf.len())"),
+ ("c18_final_size_check_removed", "C18", "len(out) != output_size", "crates/jxl-color/src/icc/decode.rs",
+  "    if out.len() != output_size as usize {\n        return Err(Error::InvalidIccStream(\"decoded ICC profile size mismatch\"));\n    }\n", ""),
+ ("c18_stride_check_relaxed", "C18", "stride < width", "crates/jxl-color/src/icc/decode.rs",
+  "                    if stride < width {", "                    if stride == 0 {"),
  ("c13_forget_handle", "C13", "leak", "crates/jxl-frame/src/lib.rs",
   "            self.handle = Some(handle);", "            std::mem::forget(handle);"),
 ]
